@@ -89,7 +89,7 @@ impl Scenario for Hs {
         format!("handshake-{}-bits{:?}", if self.outgoing { "outgoing" } else { "incoming" }, self.bits)
     }
     fn cfg(&self) -> WorldCfg {
-        WorldCfg { torrent: torrent(), have: vec![0, 1], peers: vec![peer_cfg(0, self.outgoing)], gated: false }
+        WorldCfg { torrent: torrent(), have: vec![0, 1], peers: vec![peer_cfg(0, self.outgoing)], gated: false, stale: vec![] }
     }
     fn enabled(&self, w: &World, _mon: &Mon, _depth: usize) -> Vec<String> {
         if w.peers[0].ended.get() {
@@ -218,11 +218,18 @@ pub fn run(ctx: &Ctx) -> Outcome {
             }
         }
     }
+    // which id is expected for which address is decided by the manager when it dials: tracker
+    // replies that re-list a connected address next to a new one exist only in the full-session world
+    for (s, depth) in crate::c02::identity_scenarios() {
+        let st = explore::bfs(ctx, &s, depth, ctx.tier.pick(50, 25));
+        per.push(json!({"scenario": explore::Sys::name(&s), "depth": depth, "states": st.states, "transitions": st.transitions, "depth_completed": st.depth_completed}));
+        total.merge(&st);
+    }
     let mut o = Outcome::new("model_checking");
     explore::stats_outcome(&total, &mut o);
     o.set("scenarios", Value::Array(per));
     o.set("single_bit_hash_corruptions", json!(bit_runs));
-    o.set("rule", json!(format!("BFS to depth {} over the alphabet [HS:good, HS:hash0, HS:hash159, HS:otherid (outgoing only), HS:pstr, HS:pstrlen, HS:trunc, {}] on an outgoing and an incoming connection, manager owning both pieces; a state is the canonical snapshot of manager + connection task + files + monitor; histories end when the connection task ended. Plus all 160 single-bit corruptions of the info-hash as first message, both directions.", depth, PLAIN.join(", "))));
+    o.set("rule", json!(format!("BFS to depth {} over the alphabet [HS:good, HS:hash0, HS:hash159, HS:otherid (outgoing only), HS:pstr, HS:pstrlen, HS:trunc, {}] on an outgoing and an incoming connection, manager owning both pieces; a state is the canonical snapshot of manager + connection task + files + monitor; histories end when the connection task ended. Plus all 160 single-bit corruptions of the info-hash as first message, both directions. Plus three full-session scenarios borrowed from C02 (identity-*): a re-announce lists a connected address followed by a new one, whose peer presents its own announced id (must stay connected) or the id of the connected peer (must be dropped); a host re-listed under a new id.", depth, PLAIN.join(", "))));
     o.assume("a truncated handshake followed by other bytes is undecodable input (C06's subject); after it nothing is demanded here except (2) and (4)");
     o
 }
@@ -234,6 +241,11 @@ pub fn parse_name(name: &str) -> Hs {
 }
 
 pub fn replay(_ctx: &Ctx, r: &Value) -> i32 {
+    for (s, _) in crate::c02::identity_scenarios() {
+        if explore::Sys::name(&s) == r["scenario"].as_str().unwrap() {
+            return explore::replay_verbose(&s, &explore::hist_from_json(&r["history"]), "C08");
+        }
+    }
     let s = parse_name(r["scenario"].as_str().unwrap());
     explore::replay_verbose(&s, &explore::hist_from_json(&r["history"]), "C08")
 }
